@@ -78,7 +78,7 @@ def _text(rng, used):
 
 
 def generate(rng, tier):
-    n = 330 if tier == "quick" else 6000
+    n = 330 if tier == "quick" else 4500
     out = []
     for i in range(n):
         used = set()
